@@ -1,28 +1,32 @@
 /-
-C09 — the atom / binary-operator / parenthesis core of the operator parser, as a stand-alone precedence-climbing
+C09 — the atom / prefix-operator / binary-operator / parenthesis core of the operator parser, as a stand-alone precedence-climbing
 parser over an abstract table, emitting the callback trace (core Lean only).  It is the restriction of
-`C09Ops.parseE/loopE` to tokens that are atoms, binary operators and parentheses; the parenthesis theorem
+`C09Ops.parseE/loopE` to tokens that are atoms, prefix operators, binary operators and parentheses; the parenthesis theorem
 (`Lemmas/C09Pratt`, `Props/C09.C09_paren`) is proved for it.
 -/
 namespace UtapModel.C09.Pratt
 
 inductive PTok where
-  | atom (n : Nat) | op (o : Nat) | lp | rp
+  | atom (n : Nat) | op (o : Nat) | pre (p : Nat) | lp | rp
   deriving DecidableEq, Repr
 
 /-- callbacks: `expr_identifier/nat n`, `expr_binary o`; the production `'(' Expression ')'` fires none -/
 inductive Ev where
-  | at (n : Nat) | bi (o : Nat)
+  | at (n : Nat) | bi (o : Nat) | un (p : Nat)
   deriving DecidableEq, Repr
 
 structure Tbl where
   bp : Nat → Nat          -- precedence level of a binary operator token
   rassoc : Nat → Bool     -- %right ?
+  plevel : Nat → Nat      -- precedence level of the rule of a prefix operator (`%prec`)
+  prassoc : Nat → Bool    -- is that level %right ?
 
 /-- binding power the right operand is parsed with (bison: on equal precedence shift iff %right) -/
 def Tbl.next (T : Tbl) (o : Nat) : Nat := if T.rassoc o then T.bp o else T.bp o + 1
 /-- binding power below which a LEFT operand needs parentheses -/
 def Tbl.lctx (T : Tbl) (o : Nat) : Nat := if T.rassoc o then T.bp o + 1 else T.bp o
+/-- binding power the operand of a prefix operator is parsed with -/
+def Tbl.pbp (T : Tbl) (p : Nat) : Nat := if T.prassoc p then T.plevel p else T.plevel p + 1
 
 mutual
 def parseE (T : Tbl) : Nat → Nat → List PTok → Option (List Ev × List PTok)
@@ -34,6 +38,10 @@ def parseE (T : Tbl) : Nat → Nat → List PTok → Option (List Ev × List PTo
       match parseE T f 0 ts' with
       | some (v, .rp :: ts'') => loop T f q v ts''
       | _ => none
+    | .pre p :: ts' =>
+      match parseE T f (T.pbp p) ts' with
+      | some (v, ts'') => loop T f q (v ++ [.un p]) ts''
+      | none => none
     | _ => none
 def loop (T : Tbl) : Nat → Nat → List Ev → List PTok → Option (List Ev × List PTok)
   | 0, _, _, _ => none
@@ -52,18 +60,21 @@ end
 inductive PExpr where
   | atom (n : Nat)
   | bin (o : Nat) (l r : PExpr)
+  | pre (p : Nat) (e : PExpr)
   | paren (e : PExpr)
   deriving DecidableEq, Repr
 
 def toks : PExpr → List PTok
   | .atom n => [.atom n]
   | .bin o l r => toks l ++ [.op o] ++ toks r
+  | .pre p e => [.pre p] ++ toks e
   | .paren e => [.lp] ++ toks e ++ [.rp]
 
 /-- the callback trace of a tree: post-order, parentheses contribute nothing -/
 def val : PExpr → List Ev
   | .atom n => [.at n]
   | .bin o l r => val l ++ val r ++ [.bi o]
+  | .pre p e => val e ++ [.un p]
   | .paren e => val e
 
 /-- the tree is the one the precedence table assigns to its token string: an unparenthesised operator node in a
@@ -72,12 +83,14 @@ def val : PExpr → List Ev
 def WF (T : Tbl) : Nat → PExpr → Prop
   | _, .atom _ => True
   | ctx, .bin o l r => ctx ≤ T.bp o ∧ WF T (T.lctx o) l ∧ WF T (T.next o) r
+  | ctx, .pre p e => ctx ≤ T.plevel p ∧ WF T (T.pbp p) e
   | _, .paren e => WF T 0 e
 
 /-- `t'` is `t` with additional parenthesis nodes -/
 inductive ParenExt : PExpr → PExpr → Prop
   | atom (n) : ParenExt (.atom n) (.atom n)
   | bin (o) {l l' r r'} : ParenExt l l' → ParenExt r r' → ParenExt (.bin o l r) (.bin o l' r')
+  | pre (p) {e e'} : ParenExt e e' → ParenExt (.pre p e) (.pre p e')
   | paren {e e'} : ParenExt e e' → ParenExt (.paren e) (.paren e')
   | wrap {e e'} : ParenExt e e' → ParenExt e (.paren e')
 
